@@ -261,7 +261,15 @@ func (g *gen) uriParams(max int, allowValueless bool) string {
 	return s
 }
 
-func (g *gen) displayName() string {
+func (g *gen) displayName() string { return g.displayNameOf(true) }
+
+// displayNameOf: with quotedSeparators, quoted display names may contain what separates or brackets things outside
+// quotes (From / To; the entries of Route and Record-Route lists stay free of them: domain restriction, DESIGN 2.7)
+func (g *gen) displayNameOf(quotedSeparators bool) string {
+	if quotedSeparators && g.chance(12) {
+		// quoted strings protect what they contain: separators, brackets, things that look like parameters
+		return g.pick("\"Smith, John\" ", "\"a;tag=zz9\" ", "\"x <sip:y@z>\" ", "\"q\\\"uote\" ", "\"semi;colon\"")
+	}
 	switch g.intn(5) {
 	case 0:
 		return ""
@@ -421,6 +429,19 @@ func (g *gen) assemble(p *msgParts) []byte {
 	}
 	if g.chance(30) && len(b.Headers) > 0 {
 		b.CLAt = 1 + g.intn(len(b.Headers)) // Content-Length need not be the last header field
+	}
+	if g.chance(25) {
+		// blanks around values: none or several after the colon, some behind the value (values count modulo these)
+		b.Seps = map[int]string{}
+		b.Headers = append([]sipwire.Header(nil), b.Headers...)
+		for i := -1; i < len(b.Headers); i++ {
+			if g.chance(15) {
+				b.Seps[i] = g.pick(":", ":  ", ":\t", ": \t ")
+			}
+			if i >= 0 && g.chance(6) {
+				b.Headers[i].Value += g.pick(" ", "\t", "  ")
+			}
+		}
 	}
 	return b.Bytes()
 }
